@@ -519,7 +519,7 @@ def m_add_connector(rng, w):
 def m_connect(rng, w):
     c, p = w.pick(rng, "connector")
     s, sp = w.pick(rng, "autoshape")
-    n = rng.choice([0, 1, 2, 3])
+    n = rng.choice([0, 1, 2, 3, 0, 1, 2, 3, -1, 4, 99, 2**32, "1", None, 1.5])   # a third outside the four connection points
     order = rng.choice(["begin", "end", "begin,end", "end,begin"])
     for which in order.split(","):
         s2, _ = w.pick(rng, "autoshape")
